@@ -647,6 +647,11 @@ class Grid(object):
 
         xycoords = np.ascontiguousarray(np.atleast_2d(xycoords),
                                         dtype=np.float64)
+        if xycoords.ndim != 2 or xycoords.shape[1] != 2:
+            errmess = "Expected xycoords with 2 columns,"\
+                      + f" got shape {xycoords.shape}."
+            raise ValueError(errmess)
+
         idxcell = np.zeros(len(xycoords)).astype(np.int64)
 
         ierr = c_hydrodiy_gis.coord2cell(nrows, ncols, xll, yll,
@@ -793,6 +798,11 @@ class Grid(object):
 
         xyslice = np.ascontiguousarray(np.atleast_2d(xyslice),
                                        dtype=np.float64)
+        if xyslice.ndim != 2 or xyslice.shape[1] != 2:
+            errmess = "Expected xyslice with 2 columns,"\
+                      + f" got shape {xyslice.shape}."
+            raise ValueError(errmess)
+
         zslice = np.zeros(len(xyslice)).astype(np.float64)
 
         # Run C code
